@@ -18,7 +18,7 @@ Requests (after the `C16` token):
 * `fits field new|old <tree>` — `write_field` then `read_field` through the FITS model:
   `ok w=<ok|kind> img=<tree|N> r=<ok|kind|-> out=<tree|->`
 * `fits basis new|old <tree>` — the same for mode bases
-* `ravel [shape] [index]`, `unravel [shape] k`
+* `ravel [shape] [index]`, `unravel [shape] k` — with NumPy's checks: `ok …` or `err value`
 * `dict gridold <tree>` — `Grid.from_dict` with the unrepaired registry (D161)
 * `getstate field c|f <tree>` — `Field.__getstate__()` for a C- or Fortran-ordered data array:
   `ok shape=[…] dtype=<dt> fortran=<T|F> raw=<arr>` (`raw` = the bytes decoded with the dtype)
@@ -27,7 +27,7 @@ Requests (after the `C16` token):
   `ok before=<N|S> after=<N|S> tree=<tree|err> wafter=<N|S> w=<ok|kind>` where `N`/`S` say whether the
   grid's `_weights` is `None` or set
 * `file grid asdf|fits new|old <tree>`, `file field|basis asdf new <tree>` — the grid-file / ASDF
-  layer with `AsdfLib.observed`: `ok w=<ok|kind> file=<tree|-> r=<ok|kind|-> out=<tree|->`
+  layer with `AsdfLib.observed`: `ok sc=<T|F|-> w=<ok|kind> file=<tree|-> r=<ok|kind|-> out=<tree|->`
 -/
 namespace HcipyVerif.Driver.C16
 open HcipyVerif.Proto HcipyVerif.Serial
@@ -240,7 +240,7 @@ def stAnswer {α} (before after wafter : Option Grid) (tree : Except Err Tree)
     | .error e => "err:" ++ showErr e
   s!"ok before={nullFlag before} after={nullFlag after} tree={tr} wafter={nullFlag wafter} w={status w}"
 
-def fileAnswer {α} (w : Except Err Tree) (rd : Tree → Except Err α) (td : α → Except Err Tree) :
+def fileAnswer' {α} (w : Except Err Tree) (rd : Tree → Except Err α) (td : α → Except Err Tree) :
     String :=
   match w with
   | .error e => s!"ok w={showErr e} file=- r=- out=-"
@@ -252,6 +252,17 @@ def fileAnswer {α} (w : Except Err Tree) (rd : Tree → Except Err α) (td : α
         | .error e => "toDict:" ++ showErr e
       | .error _ => "-"
     s!"ok w=ok file={showTree ft} r={status r} out={out}"
+
+def scFlag (g : Option Grid) : String :=
+  match g with
+  | some g => if g.weights.isNpScalar then "T" else "F"
+  | none => "-"
+
+/-- `sc` says whether the weights of the grid written are a NumPy scalar (`Tree.isNpScalar`): the
+only case in which the ASDF layer hands back something else than what was stored -/
+def fileAnswer {α} (g : Option Grid) (w : Except Err Tree) (rd : Tree → Except Err α)
+    (td : α → Except Err Tree) : String :=
+  "ok sc=" ++ scFlag g ++ (fileAnswer' w rd td).drop 2
 
 def step (st : St) : List String → St × String
   | ["dict", "gridold", t] =>
@@ -300,16 +311,16 @@ def step (st : St) : List String → St × String
       match decodeGrid t with
       | .ok g =>
         if fmt == "asdf" && which == "new" then
-          (st, fileAnswer ((writeGridAsdf AsdfLib.observed g).map (·.tree))
+          (st, fileAnswer (some g) ((writeGridAsdf AsdfLib.observed g).map (·.tree))
             (fun ft => readGridAsdf ⟨ft⟩) (fun x => .ok x.toDict))
         else if fmt == "asdf" && which == "old" then
-          (st, fileAnswer ((writeGridAsdf AsdfLib.observed g).map (·.tree))
+          (st, fileAnswer (some g) ((writeGridAsdf AsdfLib.observed g).map (·.tree))
             (fun ft => readGridAsdfOld ⟨ft⟩) (fun x => .ok x.toDict))
         else if fmt == "fits" && which == "new" then
-          (st, fileAnswer ((writeGridFits AsdfLib.observed g).map (·.tree))
+          (st, fileAnswer (some g) ((writeGridFits AsdfLib.observed g).map (·.tree))
             (fun ft => readGridFits ⟨none, ft⟩) (fun x => .ok x.toDict))
         else if fmt == "fits" && which == "old" then
-          (st, fileAnswer ((writeGridFits AsdfLib.observed g).map (·.tree))
+          (st, fileAnswer (some g) ((writeGridFits AsdfLib.observed g).map (·.tree))
             (fun ft => readGridFitsOld ⟨none, ft⟩) (fun x => .ok x.toDict))
         else (st, "bad-op")
       | .error e => (st, "err " ++ showErr e)
@@ -318,7 +329,7 @@ def step (st : St) : List String → St × String
     match parseTree? t with
     | some t =>
       match Field.fromDict t with
-      | .ok f => (st, fileAnswer ((writeFieldAsdf AsdfLib.observed f).map (·.tree))
+      | .ok f => (st, fileAnswer (some f.grid) ((writeFieldAsdf AsdfLib.observed f).map (·.tree))
           (fun ft => readFieldAsdf ⟨ft⟩) (fun x => .ok x.toDict))
       | .error e => (st, "err " ++ showErr e)
     | none => (st, "bad-op")
@@ -326,7 +337,7 @@ def step (st : St) : List String → St × String
     match parseTree? t with
     | some t =>
       match ModeBasis.fromDict t with
-      | .ok b => (st, fileAnswer ((writeBasisAsdf AsdfLib.observed b).map (·.tree))
+      | .ok b => (st, fileAnswer b.grid ((writeBasisAsdf AsdfLib.observed b).map (·.tree))
           (fun ft => readBasisAsdf ⟨ft⟩) ModeBasis.toDict)
       | .error e => (st, "err " ++ showErr e)
     | none => (st, "bad-op")
@@ -380,11 +391,17 @@ def step (st : St) : List String → St × String
     | _, _ => (st, "bad-op")
   | ["ravel", shape, idx] =>
     match parseNatList? shape, parseNatList? idx with
-    | some s, some i => if s.length = i.length then (st, s!"ok {ravel s i}") else (st, "bad-op")
+    | some s, some i =>
+      match ravelChecked s i with
+      | .ok n => (st, s!"ok {n}")
+      | .error e => (st, "err " ++ showErr e)
     | _, _ => (st, "bad-op")
   | ["unravel", shape, k] =>
     match parseNatList? shape, parseNat? k with
-    | some s, some k => (st, "ok " ++ showNatList (unravel s k))
+    | some s, some k =>
+      match unravelChecked s k with
+      | .ok idx => (st, "ok " ++ showNatList idx)
+      | .error e => (st, "err " ++ showErr e)
     | _, _ => (st, "bad-op")
   | _ => (st, "bad-op")
 
